@@ -2,9 +2,9 @@
 UB_IS_VIOLATION = False
 QU = ["mptcore/queue/%s.c" % f for f in (
     "qpush qpost qpre qpop qshift qunshift queue_crop queue_get queue_set queue_data "
-    "queue_empty queue_align queue_find queue_string memrev").split()]
+    "queue_empty queue_align queue_find queue_string memrev queue_resize").split()]
 OPS = ["PUSH", "UNSHIFT", "POP", "SHIFT", "CROP", "GET", "SET", "POST", "PRE", "DATA_EMPTY",
-       "ALIGN", "STRING", "FIND", "MEMREV"]
+       "ALIGN", "STRING", "FIND", "MEMREV", "RESIZE"]
 REGIONS = {"POP": ["C13_QPOP_SPLIT"], "CROP": ["C13_CROP_WRAP"], "ALIGN": ["C13_ALIGN_SPLIT"]}
 
 
@@ -12,13 +12,17 @@ def queries(tier):
     maxq = 6 if tier == "quick" else 8
     qs = []
     for op in OPS:
-        if tier == "quick" and op in ("ALIGN", "STRING", "MEMREV"):
+        if op == "RESIZE" and tier == "quick":
+            continue   # heap-backed store + realloc: needs > 8 GB; thorough tier only
+        if tier == "quick" and op in ("ALIGN", "STRING", "MEMREV", "RESIZE"):
             maxq = 4
         qs.append(Q("q_" + op.lower(), "C13/qop.c", units=QU,
-                    harness_defines={"OP": "OP_" + op, "MAXQ": maxq},
+                    harness_defines={"OP": "OP_" + op, "MAXQ": (4 if op == "RESIZE" else maxq)},
                     unwind_default=maxq + 6, fp_default=["find_cmp"],
                     unwind={"mpt_memrev.0": 2, "mpt_memswap.0": 2}, 
-                    witness=["", "WRAPPED"], regions=REGIONS.get(op, []),
+                    witness=["", "WRAPPED"], regions=REGIONS.get(op, []), mem_gb=(24 if op == "RESIZE" else None), weight=(3 if op == "RESIZE" else 1),
+                    stubs=["libc.c"] + (["realloc_small.c", "libc_loops.c"] if op == "RESIZE" else []),
+                    flags=(["--max-field-sensitivity-array-size", "100", "--memory-leak-check"] if op == "RESIZE" else []),
                     bounds="capacity 1..%d, every offset 0..max and fill 0..max, content symbolic; one %s with length/position 0..%d" % (maxq, op, maxq + 1),
                     outside="capacities above %d; mpt_memrev blocks above 1024 bytes (swap path)" % maxq))
     return qs
